@@ -169,3 +169,29 @@ contract(f"{M}:StreamResetOutgoingParam.parse", params={"data": "bytes"}, return
                         invariant=["2 * len(streams) == pos - 12",
                                    "forall(lambda j: streams[j] == u16(data, 12 + 2 * j), 0, len(streams))"])},
          fresh_result=True, tags=T58, witness=[{"data": bytes(range(16))}])
+
+# ------------------------------------------------------------------ whole packets
+contract(f"{M}:Chunk.__init__", params={"flags": "int", "body": "bytes"},
+         raises={},
+         ensures=["self.flags == flags", "self.body == body"],
+         modifies=["self.flags", "self.body"], tags=T58)
+
+contract(f"{M}:parse_packet", params={"data": "bytes"}, returns="tuple[int,int,int,list[Chunk]]",
+         raises={"ValueError": None},
+         ensures=[
+             "len(data) >= 16",
+             "result[0] == u16(data, 0) and result[1] == u16(data, 2) and result[2] == u32(data, 4)",
+             # no chunk is handed on unless the CRC-32c over the packet with a zeroed checksum field matches
+             "u32le(data, 8) == crc32c(data[0:8] + b'\\x00\\x00\\x00\\x00' + data[12:])",
+             "4 * len(result[3]) <= len(data) - 9",     # at most one chunk object per 4 bytes of datagram
+         ],
+         locals={"chunks": "list[Chunk]"},
+         loops={0: dict(kind="while",
+                        invariant=["12 <= pos <= length + 3", "length == len(data)", "fresh(chunks)",
+                                   "4 * len(chunks) <= pos - 12"],
+                        decreases="length + 3 - pos", modifies=["content(chunks)"])},
+         tags=T58,
+         # a well-formed COOKIE-ACK packet with its correct checksum, and the same packet with the checksum field zeroed
+         # (must be rejected: RFC 9653 zero checksums are not negotiated by aiortc)
+         witness=[{"data": bytes.fromhex("138813891122334412f57b750b000004")},
+                  {"data": bytes.fromhex("1388138911223344000000000b000004")}])
